@@ -1201,7 +1201,7 @@ func (m *coroModel) hoist(l *cmdLit, cf *coroFunc) []*cmdLit {
 					re := regexp.MustCompile(`param:` + regexp.QuoteMeta(pn) + `\b`)
 					v = re.ReplaceAllLiteralString(v, caller.Env.prov(call.Args[i]))
 				}
-				return v
+				return projectLiterals(v)
 			}
 			h := &cmdLit{Type: l.Type, Func: name, Lit: l.Lit, Fields: map[string]string{}, Pos: l.Pos}
 			for f, v := range l.Fields {
@@ -1818,4 +1818,58 @@ func (m *coroModel) flowConds(l *cmdLit, cf *coroFunc) []string {
 		return nil
 	}
 	return cf.Env.enclosingConds(body, sites[0])
+}
+
+// projectLiterals rewrites `T{a:x,b:y}.a` into `x` (and a field the literal leaves out into "-",
+// the unset marker): after a helper's struct-typed parameter was replaced by the literal the
+// caller passes, a field read of the parameter is the corresponding element.
+func projectLiterals(v string) string {
+	for guard := 0; guard < 32; guard++ {
+		k := strings.Index(v, "}.")
+		if k < 0 {
+			return v
+		}
+		// find the matching "{" and the start of the type name
+		depth, open := 0, -1
+		for i := k; i >= 0; i-- {
+			if v[i] == '}' {
+				depth++
+			} else if v[i] == '{' {
+				depth--
+				if depth == 0 {
+					open = i
+					break
+				}
+			}
+		}
+		if open < 0 {
+			return v
+		}
+		start := open
+		for start > 0 && (isIdentByte(v[start-1]) || v[start-1] == '.' || v[start-1] == '&') {
+			start--
+		}
+		end := k + 2
+		for end < len(v) && isIdentByte(v[end]) {
+			end++
+		}
+		field := v[k+2 : end]
+		if field == "" || start == open {
+			// not a named literal followed by a field: leave this occurrence alone
+			rest := projectLiterals(v[k+2:])
+			return v[:k+2] + rest
+		}
+		val := "-"
+		for _, el := range splitTopLevel(v[open+1 : k]) {
+			if i := strings.Index(el, ":"); i > 0 && strings.TrimSpace(el[:i]) == field {
+				val = strings.TrimSpace(el[i+1:])
+			}
+		}
+		v = v[:start] + val + v[end:]
+	}
+	return v
+}
+
+func isIdentByte(b byte) bool {
+	return b == '_' || b >= '0' && b <= '9' || b >= 'a' && b <= 'z' || b >= 'A' && b <= 'Z'
 }
